@@ -179,3 +179,44 @@ Proof.
   intros u p l k Hl Hk. rewrite update_sets_exactly_lemma. rewrite Hl.
   apply blacklist_wins_lemma. right. exists l. split; [reflexivity|exact Hk].
 Qed.
+
+(** ---- the namespace listing (round 7) ---- *)
+Lemma namespace_list_only_permitted_lemma : forall g all id,
+  In (Some id) (namespace_list g all) -> In (Some id) all /\ ns_check g id = true.
+Proof.
+  intros g all id H. unfold namespace_list in H. destruct (is_all g) eqn:E.
+  - split; [exact H|]. unfold ns_check. apply is_all_permits_everything_lemma. exact E.
+  - apply filter_In in H as [H1 H2]. split; [exact H1|exact H2].
+Qed.
+
+Lemma namespace_list_complete_lemma : forall g all id,
+  In (Some id) all -> ns_check g id = true -> In (Some id) (namespace_list g all).
+Proof.
+  intros g all id H C. unfold namespace_list. destruct (is_all g); [exact H|].
+  apply filter_In. split; [exact H|exact C].
+Qed.
+
+(** the listing is the permitted sub-list in the stored order (nothing is reordered or duplicated) *)
+Lemma namespace_list_is_filter_lemma : forall g all,
+  filter (fun e => match e with Some _ => true | None => false end) (namespace_list g all) =
+  filter (fun e => match e with Some id => ns_check g id | None => false end) all.
+Proof.
+  intros g all. unfold namespace_list. destruct (is_all g) eqn:E.
+  - induction all as [|[id|] t IH]; cbn [filter]; [reflexivity| |exact IH].
+    unfold ns_check. rewrite (is_all_permits_everything_lemma g E). f_equal. exact IH.
+  - induction all as [|[id|] t IH]; cbn [filter ns_check_option]; [reflexivity| |exact IH].
+    destruct (ns_check g id); cbn [filter]; [f_equal|]; exact IH.
+Qed.
+
+(** the [||]-for-[&&] slip in blacklist_is_empty (seeded change C18h-m1) is exactly what the
+    shortcut must not do: a whitelist-all group with a non-empty blacklist is not [is_all] *)
+Lemma is_all_needs_empty_blacklist_lemma : forall g k, is_all g = true -> at_blacklist g k = false.
+Proof.
+  intros g k H. pose proof (is_all_permits_everything_lemma g H k) as C.
+  unfold check_permission in C. apply andb_true_iff in C as [_ C]. apply negb_true_iff in C. exact C.
+Qed.
+
+Example namespace_list_example :
+  namespace_list (mkPg true true None false (Some [s2l "ns-b"])) [Some []; Some (s2l "ns-a"); Some (s2l "ns-b"); None]
+  = [Some []; Some (s2l "ns-a")].
+Proof. vm_compute. reflexivity. Qed.
